@@ -18,6 +18,7 @@
 (*   TOTAL  [2]  bound on the number of entries of a shape (cyc, rnd)      *)
 (*   NAMES  [2]  number of distinct names in a shape                       *)
 (*   ITEMS  [2]  largest list length                                       *)
+(*          typed: NBIG cases of typed settings (two files each)            *)
 (*   SEED [1], NTAPES [1], TAPELEN [3], TAPEMAX [6], NBIG [100], EMIT [0]  *)
 (***************************************************************************)
 EXTENDS ConfSyntax, IOUtils, Json
@@ -53,7 +54,9 @@ ShapeHash(es, h) ==
 
 Mix(a, b) == ((a % 65537) * 251 + (b % 65537) * 7 + 13) % 65537
 
-Case(t, l) == LET b == Render(t, l) IN [ph |-> 2, blk |-> 0, t |-> t, l |-> l, b |-> b, r |-> ParseBytes(b)]
+CaseT(id, k, t, l, typed) ==
+    LET b == Render(t, l) IN [ph |-> 2, blk |-> 0, id |-> id, k |-> k, t |-> t, l |-> l, b |-> b, r |-> ParseBytes(b), typed |-> typed]
+Case(t, l) == CaseT(0, 0, t, l, <<>>)
 
 ShapesOf(blk) == { sh \in Shapes : ShapeHash(sh, 17) % NBlocks = blk - 1 }
 CasesCyc(blk) ==
@@ -66,9 +69,63 @@ CasesBig(blk) ==
           sh == RandShape(LcgTape(x, 48))
       IN Case(Fill(sh, x % 8, (x \div 8) % 16), LcgTape(Mix(x, 1), 64))
         : j \in { jj \in 1..(NBig * NTapes) : jj % NBlocks = blk - 1 } }
-Cases(blk) == CASE Mode = "cyc" -> CasesCyc(blk) [] Mode = "rnd" -> CasesRnd(blk) [] Mode = "big" -> CasesBig(blk)
 
-Marker(ph, blk) == [ph |-> ph, blk |-> blk, t |-> <<>>, l |-> <<>>, b |-> <<>>, r |-> <<>>]
+(* Typed settings: an object "typed" with the entries b (boolean), i (integer), f (float), iv (interval)
+   and vol (volume), as two files per case: k = 0 gives every setting a value of its type, k = 1 gives
+   each either another value or a text that is no value of the type (BadPool).                         *)
+TypedObj == <<116,121,112,101,100>>                       \* "typed"
+TypedName == << <<98>>, <<105>>, <<102>>, <<105,118>>, <<118,111,108>> >>      \* b i f iv vol
+TypedComps(r, o) ==      \* r: pseudo-random numbers 0..719; o: offset into r
+    LET at(i) == r[o + i]
+        yv == at(5) % 61   dv == at(6) % 400   hv == at(7) % 100   mv == at(8) % 100   sv == at(9) % 100
+        ibits == at(10) % 32
+        iform == at(11) % 3
+        iunits == << <<yv,121,1>>, <<dv,100,1>>, <<hv,104,1>>, <<mv,109,1>>, <<sv,115,1>> >>
+        ipick == { i \in 1..5 : (ibits \div (2 ^ (i - 1))) % 2 = 1 }
+        isel == IF ipick = {} THEN << <<sv,115,1>> >>
+                ELSE [i \in 1..Cardinality(ipick) |-> iunits[CHOOSE j \in ipick : Cardinality({jj \in ipick : jj < j}) = i - 1]]
+        gv == at(12) % 2   mgv == at(13) % 1024   kv == at(14) % 1024   bv == at(15) % 1000
+        up == IF at(16) % 2 = 0 THEN 0 ELSE 32
+        vbits == at(17) % 16
+        vunits == << <<gv, 71 + up>>, <<mgv, 77 + up>>, <<kv, 75 + up>>, <<bv, IF at(18) % 2 = 0 THEN 0 ELSE 66 + up>> >>
+        vpick == { i \in 1..4 : (vbits \div (2 ^ (i - 1))) % 2 = 1 }
+        vsel == IF vpick = {} THEN << <<bv, 0>> >>
+                ELSE [i \in 1..Cardinality(vpick) |-> vunits[CHOOSE j \in vpick : Cardinality({jj \in vpick : jj < j}) = i - 1]]
+        (* a bare number may only come last *)
+        vfix == IF \E i \in 1..(Len(vsel) - 1) : vsel[i][2] = 0
+                THEN [i \in DOMAIN vsel |-> IF i < Len(vsel) /\ vsel[i][2] = 0 THEN <<vsel[i][1], 66>> ELSE vsel[i]]
+                ELSE vsel
+    IN << << <<(at(1) % 10) + 1>> >>,
+          << <<IF at(2) % 8 = 0 THEN 2147483647 ELSE at(3) * 720 + at(4)>> >>,
+          << <<at(3), (at(4) % 5) + 1>> >>,
+          IF iform = 0 THEN isel
+          ELSE IF iform = 1 THEN << <<yv,121,1>>, <<dv,100,1>>, <<hv,58,2>>, <<mv,58,2>>, <<sv,0,2>> >>
+          ELSE << <<hv,104,1>>, <<mv,109,1>>, <<sv,0,1>> >>,
+          vfix >>
+
+TypedTree(vals) ==       \* vals[st]: the text of setting st
+    << [n |-> TypedObj, k |-> "o", ents |-> [st \in 1..5 |-> [n |-> TypedName[st], k |-> "s", v |-> vals[st]]]] >>
+
+CasesTyped(blk) ==
+    UNION { LET x == Mix(Mix(Seed, 104729), j)
+                r == LcgTape(x, 48)
+                c0 == TypedComps(r, 0)
+                c1 == TypedComps(r, 20)
+                bad == [st \in 1..5 |-> (r[41] \div (2 ^ (st - 1))) % 2 = 1 \/ r[41] % 32 = 0]
+                bi == [st \in 1..5 |-> (r[41 + st] % Len(BadPool[st])) + 1]
+                ann0 == [st \in 1..5 |-> [p |-> <<TypedObj>>, n |-> TypedName[st], st |-> st, good |-> 1, c |-> c0[st], bi |-> 0]]
+                ann1 == [st \in 1..5 |-> IF bad[st]
+                                         THEN [p |-> <<TypedObj>>, n |-> TypedName[st], st |-> st, good |-> 0, c |-> <<>>, bi |-> bi[st]]
+                                         ELSE [p |-> <<TypedObj>>, n |-> TypedName[st], st |-> st, good |-> 1, c |-> c1[st], bi |-> 0]]
+                t0 == TypedTree([st \in 1..5 |-> TypedText(st, c0[st])])
+                t1 == TypedTree([st \in 1..5 |-> IF bad[st] THEN BadPool[st][bi[st]] ELSE TypedText(st, c1[st])])
+            IN { CaseT(j, 0, t0, LcgTape(Mix(x, 1), 64), ann0), CaseT(j, 1, t1, LcgTape(Mix(x, 2), 64), ann1) }
+          : j \in { jj \in 1..NBig : jj % NBlocks = blk - 1 } }
+
+Cases(blk) == CASE Mode = "cyc" -> CasesCyc(blk) [] Mode = "rnd" -> CasesRnd(blk) [] Mode = "big" -> CasesBig(blk)
+                [] Mode = "typed" -> CasesTyped(blk)
+
+Marker(ph, blk) == [ph |-> ph, blk |-> blk, id |-> 0, k |-> 0, t |-> <<>>, l |-> <<>>, b |-> <<>>, r |-> <<>>, typed |-> <<>>]
 Init == c = Marker(0, 0)
 Block == c.ph = 0 /\ \E blk \in 1..NBlocks : c' = Marker(1, blk)
 Gen == c.ph = 1 /\ c' \in Cases(c.blk)
@@ -83,7 +140,18 @@ RoundTrip == IsCase /\ c.r.ok => Meaning(c.r.ents) = Meaning(c.t)
 (* stronger than needed for C16, true of this renderer: the reader recovers the very entry sequence *)
 SameEntries == IsCase /\ c.r.ok => c.r.ents = c.t
 
-Emit == IsCase /\ EmitOn => PrintT("@@E" \o ToJson([t |-> c.t, l |-> c.l, b |-> c.b]))
+(* the typed annotations agree with the trees they annotate *)
+TypedOK ==
+    IsCase => \A x \in DOMAIN c.typed :
+        LET ty == c.typed[x]
+            key == <<<<FoldStr(TypedObj)>>, FoldStr(ty.n), "s">>
+            m == Meaning(c.t)
+        IN /\ key \in DOMAIN m
+           /\ IF ty.good = 1 THEN m[key] = TypedText(ty.st, ty.c) /\ InLang(ty.st, m[key]) /\ Denote(ty.st, m[key]) = TypedValue(ty.st, ty.c)
+                              /\ TypedValue(ty.st, ty.c) >= 0
+              ELSE m[key] = BadPool[ty.st][ty.bi] /\ ~InLang(ty.st, m[key])
+
+Emit == IsCase /\ EmitOn => PrintT("@@E" \o ToJson([id |-> c.id, k |-> c.k, t |-> c.t, l |-> c.l, b |-> c.b, typed |-> c.typed]))
 
 (* The typed-value operators against the constants of tests/unit-tests.conf and tests/test_config.c *)
 TypedExamples ==
